@@ -117,6 +117,10 @@ pub enum Op {
     /// fault: make the disk layer's file of k unreadable as a cache file (its header magic is
     /// overwritten; the payload stays) — the layer's `get` then fails instead of missing
     BreakHeader(u8),
+    /// the process ends and starts again: the cache object is dropped and a new
+    /// `MultiLayerCacheImpl` is built on the same directories (memory layers start empty, the
+    /// disk layer starts with an empty index over the files the previous instance left)
+    Restart,
 }
 
 impl Op {
@@ -160,6 +164,7 @@ impl Op {
             Op::CorruptDisk(k) => format!("FAULT:corrupt_disk_file({})", nm(*k)),
             Op::DeleteDisk(k) => format!("FAULT:delete_disk_file({})", nm(*k)),
             Op::BreakHeader(k) => format!("FAULT:break_disk_file_header({})", nm(*k)),
+            Op::Restart => "RESTART".into(),
         }
     }
 }
@@ -235,6 +240,8 @@ fn universe_tagged(layers: u8) -> Vec<(Op, bool)> {
     for k in 0..2 {
         a.push((Op::BreakHeader(k), false));
     }
+    // core: a restart in front of a put needs put_to_layer; restart; put; put(other) + sweep
+    a.push((Op::Restart, true));
     a
 }
 
@@ -278,9 +285,12 @@ fn sweep_ops(cfg: &Cfg, hist: &[Op]) -> Vec<Op> {
     s
 }
 
-/// Bound beyond depth: at most two fault injections per history.
+/// Bounds beyond depth: at most two fault injections and at most one restart per history; a
+/// restart is never the first operation (an empty cache restarted is an empty cache).
 fn admissible(hist: &[Op]) -> bool {
     hist.iter().filter(|o| o.is_fault()).count() <= 2
+        && hist.iter().filter(|o| matches!(o, Op::Restart)).count() <= 1
+        && !matches!(hist.first(), Some(Op::Restart))
 }
 
 pub fn canon(hist: &[Op]) -> String {
@@ -354,20 +364,23 @@ struct Model {
     last_put: BTreeMap<u8, Vec<u8>>,
     next_seq: u32,
     /// classes of events this history has shown (vacuity guard), see `EVENT_NAMES`
-    events: u8,
+    events: u16,
     /// keys whose disk file was made unreadable by `BreakHeader` (sticky for the history)
     broken: std::collections::BTreeSet<u8>,
+    /// sequence number of the first write after the (only) restart; 0 = no restart so far
+    restart_seq: u32,
 }
 
-const EV_SLOWER_LAYER_SERVED: u8 = 1;
-const EV_MISS_AFTER_EVICTION: u8 = 2;
-const EV_CORRUPTION_DETECTED: u8 = 4;
-const EV_VALIDATED_PUT_REJECTED: u8 = 8;
-const EV_FAULT_APPLIED: u8 = 16;
-const EV_PROMOTED: u8 = 32;
-const EV_VALIDATED_READ_OK: u8 = 64;
-const EV_SHADOWED_COPY_GONE: u8 = 128;
-const EVENT_NAMES: [&str; 8] = [
+const EV_SLOWER_LAYER_SERVED: u16 = 1;
+const EV_MISS_AFTER_EVICTION: u16 = 2;
+const EV_CORRUPTION_DETECTED: u16 = 4;
+const EV_VALIDATED_PUT_REJECTED: u16 = 8;
+const EV_FAULT_APPLIED: u16 = 16;
+const EV_PROMOTED: u16 = 32;
+const EV_VALIDATED_READ_OK: u16 = 64;
+const EV_SHADOWED_COPY_GONE: u16 = 128;
+const EV_PREVIOUS_RUN_SERVED: u16 = 256;
+const EVENT_NAMES: [&str; 9] = [
     "multi-layer read answered by a slower layer",
     "multi-layer read missed a key that an evicting layer had held",
     "get_with_validation reported corruption",
@@ -376,6 +389,7 @@ const EVENT_NAMES: [&str; 8] = [
     "promote copied an entry",
     "get_with_validation returned a value matching its content key",
     "a read missed although a slower layer had held a (superseded) copy",
+    "after a restart a multi-layer read was answered with a value the previous instance wrote",
 ];
 
 type Verdict = Result<(), (String, String)>;
@@ -403,7 +417,23 @@ impl Model {
             next_seq: 1,
             events: 0,
             broken: std::collections::BTreeSet::new(),
+            restart_seq: 0,
         }
+    }
+
+    /// The cache object is dropped and built again on the same directories.
+    fn restart(&mut self) {
+        for (i, l) in self.layers.iter_mut().enumerate() {
+            if self.kinds[i] == Kind::Memory {
+                l.clear();
+            }
+        }
+        // DECISION: what was the visible answer died with the memory layers; the text says
+        // nothing about which of the surviving (older) copies a new instance may answer with,
+        // so nothing put before the restart is "superseded" any more. Puts after the restart
+        // supersede as usual — also copies the previous instance left in the disk layer.
+        self.floor.clear();
+        self.restart_seq = self.next_seq;
     }
 
     fn floor_of(&self, k: u8) -> u32 {
@@ -525,6 +555,9 @@ impl Model {
                 // narrowing: every layer in front of the first possible holder missed
                 let cands: Vec<usize> =
                     (0..self.layers.len()).filter(|i| self.layers[*i].get(&k).is_some_and(|e| e.bytes == b)).collect();
+                if self.restart_seq != 0 && seq < self.restart_seq {
+                    self.events |= EV_PREVIOUS_RUN_SERVED;
+                }
                 if let Some(&j0) = cands.first() {
                     if j0 > 0 {
                         self.events |= EV_SLOWER_LAYER_SERVED;
@@ -674,7 +707,7 @@ struct ResLine {
     log: Vec<String>,
     /// event classes seen (bit set, see `EVENT_NAMES`)
     #[serde(default)]
-    ev: u8,
+    ev: u16,
 }
 
 fn build_cache(cfg: &Cfg, dir: &Path) -> MultiLayerCacheImpl<RibbitKey> {
@@ -758,7 +791,7 @@ impl Obs {
 
 struct Exec<'a> {
     cfg: &'a Cfg,
-    cache: MultiLayerCacheImpl<RibbitKey>,
+    cache: Option<MultiLayerCacheImpl<RibbitKey>>,
     dir: PathBuf,
     model: Model,
     seed: u64,
@@ -774,8 +807,19 @@ fn es<T>(r: Result<T, cascette_cache::error::CacheError>) -> Result<T, String> {
 
 impl Exec<'_> {
     /// Execute one real call.
-    fn call(&self, op: &Op, idx: usize) -> Obs {
-        let c = &self.cache;
+    fn call(&mut self, op: &Op, idx: usize) -> Obs {
+        if matches!(op, Op::Restart) {
+            // drop inside the runtime (the background tasks are aborted there), then build the
+            // next instance exactly like the first one
+            let old = self.cache.take();
+            rt_block_on(async {
+                drop(old);
+                tokio::task::yield_now().await;
+            });
+            self.cache = Some(construct(self.cfg, &self.dir, self.cfg.ticks));
+            return Obs::Unit(Ok(()));
+        }
+        let c = self.cache.as_ref().expect("cache instance");
         let val = |sub: usize, k: u8| Bytes::from(value_bytes(self.seed, idx, sub, k));
         match op {
             Op::Put(k) => Obs::Unit(es(rt_block_on(c.put(key_of(*k), val(0, *k))))),
@@ -820,6 +864,7 @@ impl Exec<'_> {
                     es(rt_block_on(c.get_with_validation(&key_of(*k), ck))).map(|o| o.map(|b| b.into_bytes().to_vec())),
                 )
             }
+            Op::Restart => unreachable!(),
             Op::BreakHeader(k) => {
                 let key = key_of(*k);
                 let name = cascette_cache::key::CacheKey::as_cache_key(&key).to_string();
@@ -936,6 +981,10 @@ impl Exec<'_> {
             }
             (Op::Clear, Obs::Unit(Ok(()))) => {
                 m.clear();
+                Ok(())
+            }
+            (Op::Restart, Obs::Unit(Ok(()))) => {
+                m.restart();
                 Ok(())
             }
             (Op::Promote(k, f, t), Obs::Bool(Ok(done))) => {
@@ -1089,6 +1138,24 @@ impl Exec<'_> {
     }
 }
 
+/// Construct inside the runtime (the constructor spawns the background tasks) and let the
+/// tasks run up to their first `tick().await`, where they stay: the runtime's clock is paused.
+fn construct(cfg: &Cfg, dir: &Path, fire_first_ticks: bool) -> MultiLayerCacheImpl<RibbitKey> {
+    rt_block_on(async {
+        let c = build_cache(cfg, dir);
+        tokio::task::yield_now().await;
+        if fire_first_ticks {
+            // the "immediate" first ticks are armed for the next millisecond of the paused
+            // clock: let them run now (on the still empty cache, or — after a restart — on
+            // what the previous instance left); the next ones are ten years away
+            tokio::time::advance(Duration::from_millis(2)).await;
+            tokio::task::yield_now().await;
+        }
+        tokio::task::yield_now().await;
+        c
+    })
+}
+
 fn run_history(job: &JobLine, root: &Path) -> ResLine {
     let cfg = Cfg { layers: job.c[0], strategy: job.c[1], full: true, ticks: job.f & 4 != 0 };
     let cfg = &cfg;
@@ -1107,24 +1174,8 @@ fn run_history(job: &JobLine, root: &Path) -> ResLine {
     W_PROGRESS.fetch_add(1, Ordering::SeqCst);
     W_BUSY.store(true, Ordering::SeqCst);
 
-    // construct inside the runtime (the constructor spawns the background tasks) and let the
-    // tasks run up to their first `tick().await`, where they stay: the runtime's clock is
-    // paused
-    let fire_first_ticks = job.f & 4 != 0;
-    let cache = rt_block_on(async {
-        let c = build_cache(cfg, &dir);
-        tokio::task::yield_now().await;
-        if fire_first_ticks {
-            // the "immediate" first ticks are armed for the next millisecond of the paused
-            // clock: let them run now, on the still empty cache; the next ones are ten
-            // years away
-            tokio::time::advance(Duration::from_millis(2)).await;
-            tokio::task::yield_now().await;
-        }
-        tokio::task::yield_now().await;
-        c
-    });
-    let mut ex = Exec { cfg, cache, dir: dir.clone(), model: Model::new(cfg), seed: job.s };
+    let cache = construct(cfg, &dir, job.f & 4 != 0);
+    let mut ex = Exec { cfg, cache: Some(cache), dir: dir.clone(), model: Model::new(cfg), seed: job.s };
     let mut obs_hash: u64 = 0xcbf2_9ce4_8422_2325;
 
     let total = hist.len() + sweep.len();
@@ -1670,7 +1721,7 @@ struct CfgStats {
     noop_pruned: u64,
     completed_depth: usize,
     stopped: bool,
-    events: [u64; 8],
+    events: [u64; 9],
 }
 
 fn explore_cfg(pool: &Pool, cfg: Cfg, depth: usize, rep: &Report, ctl: &Ctl) -> CfgStats {
@@ -1731,7 +1782,7 @@ fn explore_cfg(pool: &Pool, cfg: Cfg, depth: usize, rep: &Report, ctl: &Ctl) -> 
                     Outcome::Done(r) => {
                         s.ops += r.n;
                         s.sweep_calls += r.sn;
-                        for b in 0..8 {
+                        for b in 0..9 {
                             if r.ev & (1 << b) != 0 {
                                 s.events[b] += 1;
                             }
@@ -1809,7 +1860,7 @@ fn explore_cfg(pool: &Pool, cfg: Cfg, depth: usize, rep: &Report, ctl: &Ctl) -> 
             st.hanging += s.hanging;
             st.unjudged += s.unjudged;
             st.noop_pruned += s.noop_pruned;
-            for b in 0..8 {
+            for b in 0..9 {
                 st.events[b] += s.events[b];
             }
             for o in outcomes {
@@ -1891,9 +1942,9 @@ fn explore_cfg(pool: &Pool, cfg: Cfg, depth: usize, rep: &Report, ctl: &Ctl) -> 
 pub fn run(tier: Tier, seed: u64) -> i32 {
     let rep = Report::new("C12", tier, seed, Level::ModelChecking);
     rep.set_rule(
-        "every admissible history (≤2 fault injections) up to the depth bound over the multi-layer op alphabet × keys {k0,k1}, per layer configuration and promotion strategy (full alphabet to depth d, core alphabet — put, put_to_layer, get, remove, clear, promote, put_with_ttl(0), get_with_validation(md5), corrupt — to depth d+1); each history is executed on a fresh real MultiLayerCacheImpl (fresh scratch directory, MD5 hooks installed) inside an isolated worker process, in lock-step with a latest-value-per-key model, and followed by an observer sweep (every layer, contains, multi-layer read, for both keys); no state merging (tracker, LRU stamps and counters are hidden state), so states = histories; a history whose last op is a fault that found no file is counted but not extended (the call touched nothing: its state is its prefix's); violating histories are not extended; every history is distinct and non-trivial (≥1 operation, judged by the model)",
+        "every admissible history (≤2 fault injections, ≤1 RESTART — the cache object dropped and a new MultiLayerCacheImpl built on the same directories, never as first operation) up to the depth bound over the multi-layer op alphabet × keys {k0,k1}, per layer configuration and promotion strategy (full alphabet to depth d, core alphabet — put, put_to_layer, get, remove, clear, promote, put_with_ttl(0), get_with_validation(md5), corrupt, RESTART — to depth d+1); each history is executed on a fresh real MultiLayerCacheImpl (fresh scratch directory, MD5 hooks installed) inside an isolated worker process, in lock-step with a latest-value-per-key model, and followed by an observer sweep (every layer, contains, multi-layer read, for both keys); no state merging (tracker, LRU stamps and counters are hidden state), so states = histories; a history whose last op is a fault that found no file is counted but not extended (the call touched nothing: its state is its prefix's); violating histories are not extended; every history is distinct and non-trivial (≥1 operation, judged by the model)",
     );
-    rep.assume("reference model: per layer key → (value, certainly/possibly held); a write into a memory layer makes every other entry of that layer 'possibly held' (eviction may drop any entry); the disk layer (max_files 1000, TTL 1 h) holds what was written unless a fault removed it");
+    rep.assume("reference model: per layer key → (value, certainly/possibly held); a write into a memory layer makes every other entry of that layer 'possibly held' (eviction may drop any entry); the disk layer (max_files 1000, TTL 1 h) holds what was written unless a fault removed it; RESTART empties the memory layers of the model, keeps the disk layer's holdings, and forgets which value had been the visible answer (nothing put before the restart counts as superseded afterwards; puts after it supersede as usual)");
     rep.assume("background tasks: both intervals are ten years and tokio's clock is paused in the worker runtime (offset half a millisecond from the boundary), so no interval tick — not even the first, 'immediate' one, which tokio arms for the next millisecond — fires during a history; in the 'background-first-ticks=fired' configurations the clock is advanced by 2 ms right after construction so that the first ticks run on the still empty cache (the disk layer's `sync(1)` spawn fails there: workers get an empty PATH); std clocks (TTL) are real; the cleanup/sync tasks themselves are not explored");
     rep.assume("hang verdict: the single executing thread of the worker sits in the same untimed futex wait over ≥12 polls/60 ms while no other thread exists that could release it (exact), or no progress of the in-flight operation for the per-operation limit (2.5 s) *and again* for four times that limit on a second execution of the same history (a stall that does not repeat is counted as transient machine load, not as a verdict)");
     rep.assume("MD5 of the oracle is cascette-crypto's ContentKey::from_data (md-5 crate); the hooks under test use the md5 crate");
@@ -1945,7 +1996,7 @@ pub fn run(tier: Tier, seed: u64) -> i32 {
 
     let mut per_cfg = Vec::new();
     let (mut histories, mut ops, mut sweeps, mut unjudged) = (0u64, 0u64, 0u64, 0u64);
-    let mut events = [0u64; 8];
+    let mut events = [0u64; 9];
     for (cfg, depth) in plan {
         let t0 = Instant::now();
         let st = explore_cfg(&pool, cfg, depth, &rep, &ctl);
@@ -1961,7 +2012,7 @@ pub fn run(tier: Tier, seed: u64) -> i32 {
         ops += st.ops;
         sweeps += st.sweep_calls;
         unjudged += st.unjudged;
-        for b in 0..8 {
+        for b in 0..9 {
             events[b] += st.events[b];
         }
     }
@@ -1975,7 +2026,7 @@ pub fn run(tier: Tier, seed: u64) -> i32 {
     rep.extra(
         "bounds",
         json!({
-            "keys": 2, "max_fault_ops_per_history": 2, "depth_full_alphabet": d_full, "depth_core_alphabet": d_core,
+            "keys": 2, "max_fault_ops_per_history": 2, "max_restarts_per_history": 1, "depth_full_alphabet": d_full, "depth_core_alphabet": d_core,
             "per_config": per_cfg, "hang_cap_per_config": ctl.hang_cap_per_cfg, "per_op_time_limit_ms": stall_ms(),
         }),
     );
@@ -1996,7 +2047,7 @@ pub fn run(tier: Tier, seed: u64) -> i32 {
     // answers from slower layers, detected corruption, rejected puts, applied faults and
     // promotions all have to occur (the last class only exists once writes invalidate)
     if std::env::var_os("VERIF_C12_PLAN").is_none() {
-        for b in 0..7 {
+        for b in [0usize, 1, 2, 3, 4, 5, 6, 8] {
             if events[b] == 0 && rep.violation_count() == 0 {
                 rep.machinery_error(&format!("vacuous exploration: no history showed: {}", EVENT_NAMES[b]));
             }
